@@ -1,2 +1,837 @@
-(* Lemmas about Model/Period.v (stub). *)
-From Klog Require Import Base.Prelude Model.Period.
+(* Period: lemmas about Model/Period.v (Week/Month/Quarter/Year Period(), Previous(), Hash()). *)
+From Klog Require Import Base.Prelude Model.Calendar Model.Period Proofs.Sweep Proofs.CalendarSweep Proofs.Calendar.
+From Coq Require Import ZifyBool.
+Open Scope Z_scope.
+
+Definition valid (c : cdate) : Prop := valid_cdate c = true.
+Definition last_date : cdate := mk 9999 12 31.
+
+Lemma valid_last : days_of last_date = D1. Proof. reflexivity. Qed.
+
+Lemma valid_not_last c : valid c -> c <> last_date -> days_of c < D1.
+Proof.
+  intros Hv Hn. apply valid_days in Hv as [Hw Hd].
+  destruct (Z.eq_dec (days_of c) D1) as [E|E]; [|lia].
+  exfalso. apply Hn. apply days_inj; [exact Hw | unfold wf_date, last_date, mk; cbn; lia | rewrite E; reflexivity].
+Qed.
+
+Lemma plus_days_next c : valid c -> c <> last_date -> plus_days c 1 = Ok (next_day c) /\ valid (next_day c).
+Proof.
+  intros Hv Hn. pose proof (valid_not_last c Hv Hn) as Hl. apply valid_days in Hv as [Hw Hd].
+  rewrite plus_days_ok by (assumption || lia).
+  rewrite <- (days_next c Hw). rewrite cfd_days by (apply wf_next; exact Hw).
+  split; [reflexivity|]. unfold valid. rewrite <- (cfd_days (next_day c)) by (apply wf_next; exact Hw).
+  apply valid_cfd. rewrite days_next by exact Hw. lia.
+Qed.
+
+(* the date at day number z, when z is inside the calendar *)
+Lemma cfd_valid_days z : D0 <= z <= D1 -> valid (civil_from_days z) /\ days_of (civil_from_days z) = z.
+Proof. intros H. split; [apply valid_cfd; exact H | apply days_cfd]. Qed.
+
+(* ================= Week ================= *)
+
+Lemma week_since_spec fuel : forall c, valid c -> weekday c - 1 <= Z.of_nat fuel ->
+  week_since fuel c = if D0 <=? monday_of c then Ok (civil_from_days (monday_of c)) else Crash CUnrepresentableDate.
+Proof.
+  induction fuel as [|k IH]; intros c Hv Hf; pose proof (weekday_range c) as Hr;
+    pose proof (valid_days c Hv) as [Hw Hd]; cbn [week_since].
+  - destruct (weekday c =? 1) eqn:E; [|lia].
+    unfold monday_of. replace (days_of c - (weekday c - 1)) with (days_of c) by lia.
+    rewrite cfd_days by exact Hw. destruct (D0 <=? days_of c) eqn:E2; [reflexivity|lia].
+  - destruct (weekday c =? 1) eqn:E.
+    + unfold monday_of. replace (days_of c - (weekday c - 1)) with (days_of c) by lia.
+      rewrite cfd_days by exact Hw. destruct (D0 <=? days_of c) eqn:E2; [reflexivity|lia].
+    + rewrite plus_days_spec by exact Hw.
+      destruct ((D0 <=? days_of c + -1) && (days_of c + -1 <=? D1)) eqn:E2; cbn [bind].
+      * destruct (cfd_valid_days (days_of c + -1) ltac:(lia)) as [Hv' Hd'].
+        assert (Hwd : weekday (civil_from_days (days_of c + -1)) = weekday c - 1).
+        { unfold weekday in *. rewrite Hd'. Z.div_mod_to_equations; lia. }
+        rewrite IH by (assumption || lia).
+        unfold monday_of. rewrite Hwd, Hd'. replace (days_of c + -1 - (weekday c - 1 - 1)) with (days_of c - (weekday c - 1)) by lia.
+        reflexivity.
+      * unfold monday_of. destruct (D0 <=? days_of c - (weekday c - 1)) eqn:E3; [lia|reflexivity].
+Qed.
+
+Lemma week_until_spec fuel : forall c, valid c -> 7 - weekday c <= Z.of_nat fuel ->
+  week_until fuel c = if monday_of c + 6 <=? D1 then Ok (civil_from_days (monday_of c + 6)) else Crash CUnrepresentableDate.
+Proof.
+  induction fuel as [|k IH]; intros c Hv Hf; pose proof (weekday_range c) as Hr;
+    pose proof (valid_days c Hv) as [Hw Hd]; cbn [week_until].
+  - destruct (weekday c =? 7) eqn:E; [|lia].
+    unfold monday_of. replace (days_of c - (weekday c - 1) + 6) with (days_of c) by lia.
+    rewrite cfd_days by exact Hw. destruct (days_of c <=? D1) eqn:E2; [reflexivity|lia].
+  - destruct (weekday c =? 7) eqn:E.
+    + unfold monday_of. replace (days_of c - (weekday c - 1) + 6) with (days_of c) by lia.
+      rewrite cfd_days by exact Hw. destruct (days_of c <=? D1) eqn:E2; [reflexivity|lia].
+    + rewrite plus_days_spec by exact Hw.
+      destruct ((D0 <=? days_of c + 1) && (days_of c + 1 <=? D1)) eqn:E2; cbn [bind].
+      * destruct (cfd_valid_days (days_of c + 1) ltac:(lia)) as [Hv' Hd'].
+        assert (Hwd : weekday (civil_from_days (days_of c + 1)) = weekday c + 1).
+        { unfold weekday in *. rewrite Hd'. Z.div_mod_to_equations; lia. }
+        rewrite IH by (assumption || lia).
+        unfold monday_of. rewrite Hwd, Hd'. replace (days_of c + 1 - (weekday c + 1 - 1) + 6) with (days_of c - (weekday c - 1) + 6) by lia.
+        reflexivity.
+      * unfold monday_of. destruct (days_of c - (weekday c - 1) + 6 <=? D1) eqn:E3; [lia|reflexivity].
+Qed.
+
+Lemma week_period_spec c : valid c ->
+  week_period c = if (D0 <=? monday_of c) && (monday_of c + 6 <=? D1)
+                  then Ok (civil_from_days (monday_of c), civil_from_days (monday_of c + 6))
+                  else Crash CUnrepresentableDate.
+Proof.
+  intros Hv. pose proof (weekday_range c). unfold week_period.
+  rewrite week_since_spec, week_until_spec by (try assumption; change (Z.of_nat 7) with 7; lia).
+  destruct (D0 <=? monday_of c); destruct (monday_of c + 6 <=? D1); reflexivity.
+Qed.
+
+
+(* comparing a date with a given (y, m, d): day-number order is year/month/day order *)
+Lemma days_le_lex a b : wf_date a -> wf_date b ->
+  (days_of a <= days_of b <->
+   c_year a < c_year b \/ (c_year a = c_year b /\ (c_month a < c_month b \/ (c_month a = c_month b /\ c_day a <= c_day b)))).
+Proof.
+  intros Ha Hb. rewrite <- (cdate_geb_days b a Hb Ha). unfold cdate_geb.
+  destruct (c_year b =? c_year a) eqn:E1; cbn [negb]; [|lia].
+  destruct (c_month b =? c_month a) eqn:E2; cbn [negb]; lia.
+Qed.
+
+Lemma wf_mk y m d : 1 <= m <= 12 -> 1 <= d <= days_in_month y m -> wf_date (mk y m d).
+Proof. intros. unfold wf_date, mk; cbn [c_year c_month c_day]. lia. Qed.
+
+Lemma valid_mk y m d : 0 <= y <= 9999 -> 1 <= m <= 12 -> 1 <= d <= days_in_month y m -> valid (mk y m d).
+Proof. intros. unfold valid. apply valid_wf. split; [apply wf_mk; assumption | exact H]. Qed.
+
+Lemma valid_fields c : valid c -> 0 <= c_year c <= 9999 /\ 1 <= c_month c <= 12 /\ 1 <= c_day c <= days_in_month (c_year c) (c_month c).
+Proof. intros H. apply valid_wf in H as [[Hm Hd] Hy]. auto. Qed.
+
+Lemma new_date_valid y m d : valid (mk y m d) -> new_date y m d = Some (mk y m d).
+Proof. unfold valid, valid_cdate, new_date, mk; cbn [c_year c_month c_day]. intros ->. reflexivity. Qed.
+
+Lemma eta_cdate c : c = mk (c_year c) (c_month c) (c_day c).
+Proof. destruct c; reflexivity. Qed.
+
+(* ================= Month ================= *)
+
+Lemma is_last_date_spec c : is_last_date c = true <-> c = last_date.
+Proof.
+  unfold is_last_date, last_date, mk. split.
+  - intros H. rewrite (eta_cdate c). unfold mk. f_equal; lia.
+  - intros ->. reflexivity.
+Qed.
+
+Lemma month_until_spec fuel : forall y m d, valid (mk y m d) -> days_in_month y m - d < Z.of_nat fuel ->
+  month_until fuel (mk y m d) = Ok (mk y m (days_in_month y m)).
+Proof.
+  induction fuel as [|k IH]; intros y m d Hv Hf; pose proof (valid_fields _ Hv) as (Hy & Hm & Hd);
+    cbn [c_year c_month c_day mk] in Hy, Hm, Hd; cbn [month_until].
+  - lia.
+  - destruct (is_last_date (mk y m d)) eqn:El.
+    + apply is_last_date_spec in El. unfold last_date, mk in El. injection El as -> -> ->. reflexivity.
+    + assert (Hn : mk y m d <> last_date) by (intro X; apply is_last_date_spec in X; congruence).
+      destruct (plus_days_next _ Hv Hn) as [-> Hvn]. cbn [bind].
+      unfold next_day in *. cbn [c_year c_month c_day mk] in *.
+      destruct (d <? days_in_month y m) eqn:E1; cbn [c_year c_month c_day] in *.
+      * rewrite Z.eqb_refl. cbn [negb]. apply (IH y m (d + 1)); [exact Hvn | lia].
+      * assert (d = days_in_month y m) by lia. subst d.
+        destruct (m <? 12) eqn:E2; cbn [c_year c_month c_day].
+        -- destruct (m + 1 =? m) eqn:E3; [lia|]. reflexivity.
+        -- destruct (1 =? m) eqn:E3; [lia|]. reflexivity.
+Qed.
+
+Lemma month_period_spec c : valid c ->
+  month_period c = Ok (mk (c_year c) (c_month c) 1, mk (c_year c) (c_month c) (days_in_month (c_year c) (c_month c))).
+Proof.
+  intros Hv. pose proof (valid_fields _ Hv) as (Hy & Hm & Hd). pose proof (dim_bounds (c_year c) (c_month c)).
+  unfold month_period.
+  rewrite (new_date_valid _ _ 1) by (apply valid_mk; lia).
+  rewrite (new_date_valid _ _ 28) by (apply valid_mk; lia).
+  rewrite month_until_spec; [reflexivity | apply valid_mk; lia | change (Z.of_nat 4) with 4; lia].
+Qed.
+
+(* going back n days from day d of a month, d <= n < d + 28, lands in the month before *)
+Lemma days_back y m d n : 1 <= m <= 12 -> 1 <= d -> d <= n < d + 28 ->
+  days_from_civil y m d - n =
+    if m =? 1 then days_from_civil (y - 1) 12 (31 + d - n)
+    else days_from_civil y (m - 1) (days_in_month y (m - 1) + d - n).
+Proof.
+  intros Hm Hd Hn. destruct (m =? 1) eqn:E.
+  - assert (m = 1) by lia. subst m. pose proof (days_year_start (y - 1)) as S. replace (y - 1 + 1) with y in S by lia.
+    rewrite (days_day y 1 d), S, (days_day (y - 1) 12 (31 + d - n)). lia.
+  - pose proof (days_month_start y (m - 1) ltac:(lia)) as S. replace (m - 1 + 1) with m in S by lia.
+    rewrite (days_day y m d), S, (days_day y (m - 1) (days_in_month y (m - 1) + d - n)). lia.
+Qed.
+
+(* the month before *)
+Definition prev_month (c : cdate) : Z * Z :=
+  if c_month c =? 1 then (c_year c - 1, 12) else (c_year c, c_month c - 1).
+
+Lemma month_previous_spec c : valid c -> ~ (c_year c = 0 /\ c_month c = 1) ->
+  exists p, month_previous c = Ok p /\ valid p /\ (c_year p, c_month p) = prev_month c.
+Proof.
+  intros Hv Hne. pose proof (valid_fields _ Hv) as (Hy & Hm & Hd). pose proof (valid_days _ Hv) as [Hw Hr].
+  pose proof (dim_bounds (c_year c) (c_month c)) as Hb.
+  pose proof (dim_bounds (c_year c) (c_month c - 1)) as Hb'.
+  (* the first day of the month is at least 31 days after 0000-01-01 unless it is 0000-01 *)
+  assert (Hfirst : D0 + 31 <= days_from_civil (c_year c) (c_month c) 1).
+  { change (D0 + 31) with (days_of (mk 0 2 1)).
+    change (days_from_civil (c_year c) (c_month c) 1) with (days_of (mk (c_year c) (c_month c) 1)).
+    apply days_le_lex; [apply wf_mk; cbn; lia | apply wf_mk; lia |]. unfold mk; cbn [c_year c_month c_day]. lia. }
+  assert (Hz : days_of c = days_from_civil (c_year c) (c_month c) 1 + (c_day c - 1)) by (unfold days_of; apply days_day).
+  unfold month_previous. cbn [month_prev_loop].
+  (* target date in the previous month for a step of n days *)
+  assert (Hback : forall d n, 1 <= d -> d <= n < d + 28 -> d <= days_in_month (c_year c) (c_month c) ->
+     let p := if c_month c =? 1 then mk (c_year c - 1) 12 (31 + d - n)
+              else mk (c_year c) (c_month c - 1) (days_in_month (c_year c) (c_month c - 1) + d - n) in
+     civil_from_days (days_from_civil (c_year c) (c_month c) d - n) = p /\ valid p /\ (c_year p, c_month p) = prev_month c
+     /\ c_month p <> c_month c).
+  { intros d n H1 H2 H3. cbv zeta. rewrite days_back by lia. unfold prev_month.
+    destruct (c_month c =? 1) eqn:E.
+    - assert (Hvp : valid (mk (c_year c - 1) 12 (31 + d - n))) by (apply valid_mk; unfold days_in_month; eval_closed; lia).
+      split; [apply (cfd_days (mk (c_year c - 1) 12 (31 + d - n))); apply valid_wf in Hvp; tauto|].
+      split; [exact Hvp|]. cbn [c_year c_month mk]. split; [reflexivity | lia].
+    - assert (Hvp : valid (mk (c_year c) (c_month c - 1) (days_in_month (c_year c) (c_month c - 1) + d - n))) by (apply valid_mk; lia).
+      split; [apply (cfd_days (mk (c_year c) (c_month c - 1) (days_in_month (c_year c) (c_month c - 1) + d - n))); apply valid_wf in Hvp; tauto|].
+      split; [exact Hvp|]. cbn [c_year c_month mk]. split; [reflexivity | lia]. }
+  rewrite plus_days_ok by (assumption || lia).
+  cbn [bind].
+  destruct (Z_le_gt_dec (c_day c) 25) as [L|G].
+  - (* one step of 25 days leaves the month *)
+    destruct (Hback (c_day c) 25 ltac:(lia) ltac:(lia) ltac:(lia)) as (E1 & V1 & P1 & N1). cbv zeta in *.
+    replace (days_of c + -25) with (days_from_civil (c_year c) (c_month c) (c_day c) - 25) by (unfold days_of; lia).
+    rewrite E1. match goal with |- context[negb (c_month ?p =? _)] => destruct (c_month p =? c_month c) eqn:E2 end; [lia|].
+    cbn [negb]. eexists; split; [reflexivity|]. split; assumption.
+  - (* day 26..31: the first step stays inside the month, the second leaves it *)
+    assert (E0 : civil_from_days (days_of c + -25) = mk (c_year c) (c_month c) (c_day c - 25)).
+    { replace (days_of c + -25) with (days_of (mk (c_year c) (c_month c) (c_day c - 25))).
+      - apply cfd_days. apply wf_mk; lia.
+      - unfold days_of at 1. cbn [c_year c_month c_day mk]. rewrite (days_day _ _ (c_day c - 25)). lia. }
+    rewrite E0. cbn [c_month mk]. rewrite Z.eqb_refl. cbn [negb].
+    assert (Hw0 : wf_date (mk (c_year c) (c_month c) (c_day c - 25))) by (apply wf_mk; lia).
+    rewrite plus_days_ok; [|exact Hw0|].
+    2:{ unfold days_of. cbn [c_year c_month c_day mk]. rewrite (days_day _ _ (c_day c - 25)). lia. }
+    cbn [bind].
+    destruct (Hback (c_day c - 25) 25 ltac:(lia) ltac:(lia) ltac:(lia)) as (E1 & V1 & P1 & N1). cbv zeta in *.
+    replace (days_of (mk (c_year c) (c_month c) (c_day c - 25)) + -25) with (days_from_civil (c_year c) (c_month c) (c_day c - 25) - 25)
+      by (unfold days_of; cbn [c_year c_month c_day mk]; lia).
+    rewrite E1. match goal with |- context[negb (c_month ?p =? _)] => destruct (c_month p =? c_month c) eqn:E2 end; [lia|].
+    cbn [negb]. eexists; split; [reflexivity|]. split; assumption.
+Qed.
+
+
+(* the day after the last day of a month is the first day of the next month *)
+Lemma days_month_end y m : 1 <= m <= 12 ->
+  days_from_civil y m (days_in_month y m) + 1 =
+    if m <? 12 then days_from_civil y (m + 1) 1 else days_from_civil (y + 1) 1 1.
+Proof.
+  intros Hm. rewrite (days_day y m (days_in_month y m)). destruct (m <? 12) eqn:E.
+  - rewrite days_month_start by lia. lia.
+  - assert (m = 12) by lia. subst m. rewrite days_year_start. unfold days_in_month. eval_closed. lia.
+Qed.
+
+(* ================= Quarter ================= *)
+
+Definition q_first (y q : Z) : cdate := mk y (3 * q - 2) 1.
+Definition q_last (y q : Z) : cdate := mk y (3 * q) (days_in_month y (3 * q)).
+
+Ltac quarter_split q H :=
+  let Hc := fresh "Hc" in
+  assert (Hc : q = 1 \/ q = 2 \/ q = 3 \/ q = 4) by lia; destruct Hc as [->|[->|[->| ->]]].
+
+Lemma q_first_last_valid y q : 0 <= y <= 9999 -> 1 <= q <= 4 -> valid (q_first y q) /\ valid (q_last y q).
+Proof.
+  intros Hy Hq. pose proof (dim_bounds y (3 * q - 2)). pose proof (dim_bounds y (3 * q)).
+  split; apply valid_mk; lia.
+Qed.
+
+Lemma quarter_period_spec c : valid c ->
+  quarter_period c = Ok (q_first (c_year c) (quarter c), q_last (c_year c) (quarter c)).
+Proof.
+  intros Hv. pose proof (valid_fields _ Hv) as (Hy & Hm & Hd). pose proof (quarter_spec c Hm) as [Hq _].
+  unfold quarter_period, q_first, q_last. cbv zeta.
+  set (q := quarter c) in *. clearbody q.
+  quarter_split q Hq; eval_closed; unfold days_in_month; eval_closed;
+    rewrite !new_date_valid by (apply valid_mk; unfold days_in_month; eval_closed; lia); reflexivity.
+Qed.
+
+(* length of a quarter *)
+Lemma quarter_len y q : 1 <= q <= 4 -> 89 <= days_of (q_last y q) - days_of (q_first y q) <= 91.
+Proof.
+  intros Hq. unfold days_of, q_first, q_last, mk. cbn [c_year c_month c_day].
+  rewrite (days_ymd y (3 * q)), (days_ymd y (3 * q - 2)) by lia.
+  unfold cum_days, cum_table, days_in_month. quarter_split q Hq; eval_closed; destruct (is_leap y); lia.
+Qed.
+
+(* a date between the first and the last day of a quarter lies in that quarter *)
+Lemma in_quarter c y q : wf_date c -> 1 <= q <= 4 ->
+  days_of (q_first y q) <= days_of c <= days_of (q_last y q) -> c_year c = y /\ quarter c = q.
+Proof.
+  intros Hw Hq [H1 H2]. pose proof (dim_bounds y (3 * q)). pose proof (dim_bounds y (3 * q - 2)).
+  apply days_le_lex in H1; [|apply wf_mk; lia | exact Hw].
+  apply days_le_lex in H2; [|exact Hw | apply wf_mk; lia].
+  unfold q_first, q_last, mk in *. cbn [c_year c_month c_day] in *. destruct Hw as [Hm _].
+  unfold quarter. split; [lia|]. Z.div_mod_to_equations. lia.
+Qed.
+
+Definition prev_quarter (c : cdate) : Z * Z :=
+  if quarter c =? 1 then (c_year c - 1, 4) else (c_year c, quarter c - 1).
+
+Lemma q_last_next y q : 1 <= q <= 4 ->
+  days_of (q_last y q) + 1 = if q =? 4 then days_of (q_first (y + 1) 1) else days_of (q_first y (q + 1)).
+Proof.
+  intros Hq. unfold days_of, q_last, q_first, mk. cbn [c_year c_month c_day].
+  rewrite days_month_end by lia. quarter_split q Hq; eval_closed; reflexivity.
+Qed.
+
+Lemma quarter_previous_spec c : valid c -> ~ (c_year c = 0 /\ quarter c = 1) ->
+  exists p, quarter_previous c = Ok p /\ valid p /\ (c_year p, quarter p) = prev_quarter c.
+Proof.
+  intros Hv Hne. pose proof (valid_fields _ Hv) as (Hy & Hm & Hd). pose proof (valid_days _ Hv) as [Hw Hr].
+  pose proof (quarter_spec c Hm) as [Hq Hqm].
+  set (y := c_year c) in *. set (q := quarter c) in *.
+  set (y' := fst (prev_quarter c)). set (q' := snd (prev_quarter c)).
+  assert (Hp : (0 <= y' <= 9999 /\ 1 <= q' <= 4) /\ days_of (q_last y' q') + 1 = days_of (q_first y q)).
+  { unfold y', q', prev_quarter. fold q y. destruct (q =? 1) eqn:E; cbn [fst snd].
+    - split; [lia|]. rewrite q_last_next by lia. eval_closed. replace (y - 1 + 1) with y by lia. replace q with 1 by lia. reflexivity.
+    - split; [lia|]. rewrite q_last_next by lia. destruct (q - 1 =? 4) eqn:E2; [lia|]. replace (q - 1 + 1) with q by lia. reflexivity. }
+  destruct Hp as [[Hy' Hq'] Hadj].
+  destruct (q_first_last_valid y' q' Hy' Hq') as [Vf Vl].
+  pose proof (valid_days _ Vf) as [_ Rf]. pose proof (valid_days _ Vl) as [_ Rl].
+  pose proof (quarter_len y q Hq) as L. pose proof (quarter_len y' q' Hq') as L'.
+  (* c lies in its own quarter *)
+  assert (Hin : days_of (q_first y q) <= days_of c <= days_of (q_last y q)).
+  { destruct (q_first_last_valid y q Hy Hq) as [Vf0 Vl0].
+    apply valid_days in Vf0 as [Wf0 _]. apply valid_days in Vl0 as [Wl0 _].
+    split; apply days_le_lex; try assumption;
+      unfold q_first, q_last, mk; cbn [c_year c_month c_day]; fold y.
+    - lia.
+    - destruct (Z.eq_dec (c_month c) (3 * q)) as [Em|Em]; [rewrite <- Em; lia | lia]. }
+  (* anything in the previous quarter's day range is a valid date of that quarter *)
+  assert (Hprev : forall z, days_of (q_first y' q') <= z <= days_of (q_last y' q') ->
+            valid (civil_from_days z) /\ (c_year (civil_from_days z), quarter (civil_from_days z)) = prev_quarter c
+            /\ quarter (civil_from_days z) <> q).
+  { intros z Hz. destruct (cfd_valid_days z ltac:(lia)) as [V E]. split; [exact V|].
+    pose proof (valid_days _ V) as [W _].
+    destruct (in_quarter _ y' q' W Hq' ltac:(rewrite E; exact Hz)) as [A B]. rewrite A, B.
+    split; [unfold y', q'; destruct (prev_quarter c); reflexivity|].
+    unfold q', prev_quarter. fold q. destruct (q =? 1) eqn:E1; cbn [snd]; lia. }
+  unfold quarter_previous. fold q. cbn [quarter_prev_loop].
+  rewrite plus_days_ok by (assumption || lia). cbn [bind].
+  destruct (Z_lt_le_dec (days_of c + -80) (days_of (q_first y q))) as [Lt|Ge].
+  - destruct (Hprev (days_of c + -80) ltac:(lia)) as (V & P & N).
+    destruct (quarter (civil_from_days (days_of c + -80)) =? q) eqn:E; [lia|]. cbn [negb].
+    eexists; split; [reflexivity|]. split; assumption.
+  - destruct (cfd_valid_days (days_of c + -80) ltac:(lia)) as [V0 E0]. pose proof (valid_days _ V0) as [W0 _].
+    destruct (in_quarter _ y q W0 Hq ltac:(rewrite E0; lia)) as [_ B]. rewrite B, Z.eqb_refl. cbn [negb].
+    rewrite plus_days_ok by (try exact W0; rewrite E0; lia). cbn [bind]. rewrite E0.
+    destruct (Hprev (days_of c + -80 + -80) ltac:(lia)) as (V & P & N).
+    destruct (quarter (civil_from_days (days_of c + -80 + -80)) =? q) eqn:E; [lia|]. cbn [negb].
+    eexists; split; [reflexivity|]. split; assumption.
+Qed.
+
+(* ================= Year ================= *)
+
+Lemma year_period_spec c : valid c -> year_period c = Ok (mk (c_year c) 1 1, mk (c_year c) 12 31).
+Proof.
+  intros Hv. pose proof (valid_fields _ Hv) as (Hy & _). unfold year_period.
+  rewrite !new_date_valid by (apply valid_mk; unfold days_in_month; eval_closed; lia). reflexivity.
+Qed.
+
+Lemma year_previous_spec c : valid c -> 1 <= c_year c -> year_previous c = Ok (mk (c_year c - 1) 1 1).
+Proof.
+  intros Hv H1. pose proof (valid_fields _ Hv) as (Hy & _). unfold year_previous.
+  rewrite new_date_valid by (apply valid_mk; unfold days_in_month; eval_closed; lia). reflexivity.
+Qed.
+
+Lemma year_previous_crash c : c_year c = 0 -> year_previous c = Crash CExplicitPanic.
+Proof. intros H. unfold year_previous. rewrite H. reflexivity. Qed.
+
+
+(* ================= the four kinds together ================= *)
+
+(* first and last day of the period of kind k that contains c *)
+Definition pstart (k : kind) (c : cdate) : cdate :=
+  match k with
+  | KWeek => civil_from_days (monday_of c)
+  | KMonth => mk (c_year c) (c_month c) 1
+  | KQuarter => q_first (c_year c) (quarter c)
+  | KYear => mk (c_year c) 1 1
+  end.
+
+Definition pend (k : kind) (c : cdate) : cdate :=
+  match k with
+  | KWeek => civil_from_days (monday_of c + 6)
+  | KMonth => mk (c_year c) (c_month c) (days_in_month (c_year c) (c_month c))
+  | KQuarter => q_last (c_year c) (quarter c)
+  | KYear => mk (c_year c) 12 31
+  end.
+
+(* the period lies inside 0000-01-01 .. 9999-12-31 (always true except for the first and the last week) *)
+Definition representable (k : kind) (c : cdate) : Prop :=
+  match k with
+  | KWeek => D0 <= monday_of c /\ monday_of c + 6 <= D1
+  | _ => True
+  end.
+
+Lemma period_spec k c : valid c -> representable k c -> period_of k c = Ok (pstart k c, pend k c).
+Proof.
+  intros Hv Hr. destruct k; cbn [period_of pstart pend].
+  - rewrite week_period_spec by exact Hv. cbn [representable] in Hr.
+    destruct ((D0 <=? monday_of c) && (monday_of c + 6 <=? D1)) eqn:E; [reflexivity|lia].
+  - apply month_period_spec; exact Hv.
+  - apply quarter_period_spec; exact Hv.
+  - apply year_period_spec; exact Hv.
+Qed.
+
+Lemma period_crash k c : valid c -> ~ representable k c -> period_of k c = Crash CUnrepresentableDate.
+Proof.
+  intros Hv Hr. destruct k; cbn [representable] in Hr; try tauto. cbn [period_of].
+  rewrite week_period_spec by exact Hv.
+  destruct ((D0 <=? monday_of c) && (monday_of c + 6 <=? D1)) eqn:E; [lia|reflexivity].
+Qed.
+
+Lemma pstart_pend_bounds k c : valid c -> representable k c ->
+  valid (pstart k c) /\ valid (pend k c) /\ days_of (pstart k c) <= days_of c <= days_of (pend k c).
+Proof.
+  intros Hv Hr. pose proof (valid_fields _ Hv) as (Hy & Hm & Hd). pose proof (valid_days _ Hv) as [Hw Hz].
+  destruct k; cbn [pstart pend representable] in *.
+  - pose proof (monday_of_spec c) as [B _].
+    destruct (cfd_valid_days (monday_of c) ltac:(lia)) as [V1 E1].
+    destruct (cfd_valid_days (monday_of c + 6) ltac:(lia)) as [V2 E2].
+    rewrite E1, E2. split; [exact V1|]. split; [exact V2|]. lia.
+  - pose proof (dim_bounds (c_year c) (c_month c)).
+    assert (V1 : valid (mk (c_year c) (c_month c) 1)) by (apply valid_mk; lia).
+    assert (V2 : valid (mk (c_year c) (c_month c) (days_in_month (c_year c) (c_month c)))) by (apply valid_mk; lia).
+    split; [exact V1|]. split; [exact V2|]. apply valid_days in V1 as [W1 _]. apply valid_days in V2 as [W2 _].
+    split; apply days_le_lex; try assumption; unfold mk; cbn [c_year c_month c_day]; lia.
+  - pose proof (quarter_spec c Hm) as [Hq Hqm].
+    destruct (q_first_last_valid (c_year c) (quarter c) Hy Hq) as [V1 V2].
+    split; [exact V1|]. split; [exact V2|]. apply valid_days in V1 as [W1 _]. apply valid_days in V2 as [W2 _].
+    split; apply days_le_lex; try assumption; unfold q_first, q_last, mk; cbn [c_year c_month c_day]; [lia|].
+    destruct (Z.eq_dec (c_month c) (3 * quarter c)) as [Em|Em]; [rewrite <- Em; lia | lia].
+  - pose proof (dim_bounds (c_year c) (c_month c)).
+    assert (V1 : valid (mk (c_year c) 1 1)) by (apply valid_mk; unfold days_in_month; eval_closed; lia).
+    assert (V2 : valid (mk (c_year c) 12 31)) by (apply valid_mk; unfold days_in_month; eval_closed; lia).
+    split; [exact V1|]. split; [exact V2|]. apply valid_days in V1 as [W1 _]. apply valid_days in V2 as [W2 _].
+    split; apply days_le_lex; try assumption; unfold mk; cbn [c_year c_month c_day]; lia.
+Qed.
+
+(* every date between the first and the last day has the same period *)
+Lemma period_same k c c' : valid c -> representable k c -> valid c' ->
+  days_of (pstart k c) <= days_of c' <= days_of (pend k c) ->
+  pstart k c' = pstart k c /\ pend k c' = pend k c /\ representable k c'.
+Proof.
+  intros Hv Hr Hv' Hin. pose proof (valid_fields _ Hv) as (Hy & Hm & Hd). pose proof (valid_days _ Hv') as [Hw' Hz'].
+  destruct k; cbn [pstart pend representable] in *.
+  - destruct (days_cfd (monday_of c)) as [_ E1]. destruct (days_cfd (monday_of c + 6)) as [_ E2].
+    rewrite E1, E2 in Hin. pose proof (monday_of_spec c) as [_ Mc].
+    assert (E : monday_of c' = monday_of c).
+    { unfold monday_of at 1, weekday. symmetry.
+      replace (days_of c' - ((days_of c' + 3) mod 7 + 1 - 1)) with (days_of c' - (days_of c' + 3) mod 7) by lia.
+      apply monday_unique; assumption. }
+    rewrite E. auto.
+  - pose proof (dim_bounds (c_year c) (c_month c)).
+    destruct Hin as [H1 H2].
+    apply days_le_lex in H1; [|apply wf_mk; lia | exact Hw'].
+    apply days_le_lex in H2; [|exact Hw' | apply wf_mk; lia].
+    unfold mk in H1, H2. cbn [c_year c_month c_day] in H1, H2.
+    assert (c_year c' = c_year c /\ c_month c' = c_month c) as [-> ->] by lia. auto.
+  - pose proof (quarter_spec c Hm) as [Hq _].
+    destruct (in_quarter c' (c_year c) (quarter c) Hw' Hq Hin) as [-> ->]. auto.
+  - destruct Hin as [H1 H2].
+    apply days_le_lex in H1; [|apply wf_mk; unfold days_in_month; eval_closed; lia | exact Hw'].
+    apply days_le_lex in H2; [|exact Hw' | apply wf_mk; unfold days_in_month; eval_closed; lia].
+    unfold mk in H1, H2. cbn [c_year c_month c_day] in H1, H2.
+    assert (c_year c' = c_year c) as -> by lia. auto.
+Qed.
+
+(* what "first day" and "last day" of a period of kind k mean *)
+Definition first_last_ok (k : kind) (s u : cdate) : Prop :=
+  match k with
+  | KWeek => weekday s = 1 /\ weekday u = 7 /\ days_of u = days_of s + 6
+  | KMonth => c_year s = c_year u /\ c_month s = c_month u /\ c_day s = 1
+              /\ c_day u = days_in_month (c_year u) (c_month u)
+  | KQuarter => c_year s = c_year u /\ quarter s = quarter u /\ c_month s = 3 * quarter s - 2 /\ c_day s = 1
+                /\ c_month u = 3 * quarter u /\ c_day u = days_in_month (c_year u) (c_month u)
+  | KYear => c_year s = c_year u /\ c_month s = 1 /\ c_day s = 1 /\ c_month u = 12 /\ c_day u = 31
+  end.
+
+Lemma pstart_pend_first_last k c : valid c -> first_last_ok k (pstart k c) (pend k c).
+Proof.
+  intros Hv. pose proof (valid_fields _ Hv) as (Hy & Hm & Hd).
+  destruct k; cbn [pstart pend first_last_ok].
+  - destruct (days_cfd (monday_of c)) as [_ E1]. destruct (days_cfd (monday_of c + 6)) as [_ E2].
+    pose proof (monday_of_spec c) as [_ Mc]. unfold weekday. rewrite E1, E2.
+    split; [|split; [|lia]]; Z.div_mod_to_equations; lia.
+  - unfold mk; cbn [c_year c_month c_day]. auto.
+  - pose proof (quarter_spec c Hm) as [Hq _]. unfold q_first, q_last, mk, quarter; cbn [c_year c_month c_day].
+    repeat split; try reflexivity; Z.div_mod_to_equations; lia.
+  - unfold mk; cbn [c_year c_month c_day]. auto.
+Qed.
+
+(* ---- Previous() ---- *)
+Definition prev_representable (k : kind) (c : cdate) : Prop :=
+  match k with
+  | KWeek => D0 + 7 <= monday_of c
+  | KMonth => ~ (c_year c = 0 /\ c_month c = 1)
+  | KQuarter => ~ (c_year c = 0 /\ quarter c = 1)
+  | KYear => 1 <= c_year c
+  end.
+
+Lemma previous_spec k c : valid c -> prev_representable k c ->
+  exists p, previous_of k c = Ok p /\ valid p /\ representable k p
+            /\ days_of (pend k p) + 1 = days_of (pstart k c).
+Proof.
+  intros Hv Hp. pose proof (valid_fields _ Hv) as (Hy & Hm & Hd). pose proof (valid_days _ Hv) as [Hw Hz].
+  destruct k; cbn [previous_of prev_representable pstart pend representable] in *.
+  - pose proof (monday_of_spec c) as [B Mc]. unfold week_previous.
+    rewrite plus_days_ok by (assumption || lia).
+    destruct (cfd_valid_days (days_of c + -7) ltac:(lia)) as [V E].
+    eexists; split; [reflexivity|]. split; [exact V|].
+    assert (EM : monday_of (civil_from_days (days_of c + -7)) = monday_of c - 7).
+    { unfold monday_of, weekday. rewrite E. Z.div_mod_to_equations; lia. }
+    rewrite EM. split; [lia|].
+    destruct (days_cfd (monday_of c - 7 + 6)) as [_ ->]. destruct (days_cfd (monday_of c)) as [_ ->]. lia.
+  - destruct (month_previous_spec c Hv Hp) as (p & E & V & P). exists p. split; [exact E|]. split; [exact V|]. split; [exact I|].
+    unfold prev_month in P. unfold days_of, mk. cbn [c_year c_month c_day].
+    pose proof (valid_fields _ V) as (_ & Hpm & _).
+    rewrite days_month_end by exact Hpm.
+    destruct (c_month c =? 1) eqn:E1; injection P as -> ->.
+    + eval_closed. replace (c_year c - 1 + 1) with (c_year c) by lia. replace (c_month c) with 1 by lia. reflexivity.
+    + destruct (c_month c - 1 <? 12) eqn:E2; [|lia]. replace (c_month c - 1 + 1) with (c_month c) by lia. reflexivity.
+  - destruct (quarter_previous_spec c Hv Hp) as (p & E & V & P). exists p. split; [exact E|]. split; [exact V|]. split; [exact I|].
+    pose proof (valid_fields _ V) as (_ & Hpm & _). pose proof (quarter_spec p Hpm) as [Hpq _].
+    pose proof (quarter_spec c Hm) as [Hq _].
+    rewrite q_last_next by exact Hpq. unfold prev_quarter in P.
+    destruct (quarter c =? 1) eqn:E1; injection P as -> ->.
+    + eval_closed. replace (c_year c - 1 + 1) with (c_year c) by lia. replace (quarter c) with 1 by lia. reflexivity.
+    + destruct (quarter c - 1 =? 4) eqn:E2; [lia|]. replace (quarter c - 1 + 1) with (quarter c) by lia. reflexivity.
+  - rewrite year_previous_spec by assumption. eexists; split; [reflexivity|].
+    split; [apply valid_mk; unfold days_in_month; eval_closed; lia|]. split; [exact I|].
+    unfold mk, days_of; cbn [c_year c_month c_day].
+    pose proof (days_month_end (c_year c - 1) 12 ltac:(lia)) as S. revert S. unfold days_in_month. eval_closed.
+    replace (c_year c - 1 + 1) with (c_year c) by lia. tauto.
+Qed.
+
+
+(* ---- the unrepresentable periods, as dates ---- *)
+Definition week_edge (c : cdate) : Prop :=
+  (c_year c = 0 /\ c_month c = 1 /\ c_day c <= 2) \/ (c_year c = 9999 /\ c_month c = 12 /\ 27 <= c_day c).
+
+Definition period_edge (k : kind) (c : cdate) : Prop :=
+  match k with KWeek => week_edge c | _ => False end.
+
+Definition previous_edge (k : kind) (c : cdate) : Prop :=
+  match k with
+  | KWeek => c_year c = 0 /\ c_month c = 1 /\ c_day c <= 9
+  | KMonth => c_year c = 0 /\ c_month c = 1
+  | KQuarter => c_year c = 0 /\ c_month c <= 3
+  | KYear => c_year c = 0
+  end.
+
+Lemma days_ge_date c y m d : wf_date c -> wf_date (mk y m d) ->
+  (days_from_civil y m d <= days_of c <->
+   y < c_year c \/ (y = c_year c /\ (m < c_month c \/ (m = c_month c /\ d <= c_day c)))).
+Proof. intros Hc Hd. apply (days_le_lex (mk y m d) c Hd Hc). Qed.
+
+Lemma days_le_date c y m d : wf_date c -> wf_date (mk y m d) ->
+  (days_of c <= days_from_civil y m d <->
+   c_year c < y \/ (c_year c = y /\ (c_month c < m \/ (c_month c = m /\ c_day c <= d)))).
+Proof. intros Hc Hd. apply (days_le_lex c (mk y m d) Hc Hd). Qed.
+
+Lemma representable_iff k c : valid c -> (representable k c <-> ~ period_edge k c).
+Proof.
+  intros Hv. destruct k; cbn [representable period_edge]; try tauto.
+  pose proof (valid_fields _ Hv) as (Hy & Hm & Hd). pose proof (valid_days _ Hv) as [Hw Hz].
+  assert (R : (D0 <= monday_of c /\ monday_of c + 6 <= D1) <-> (D0 + 2 <= days_of c <= D1 - 5)).
+  { unfold monday_of, weekday, D0, D1. Z.div_mod_to_equations. lia. }
+  rewrite R. change (D0 + 2) with (days_from_civil 0 1 3). change (D1 - 5) with (days_from_civil 9999 12 26).
+  rewrite (days_ge_date c 0 1 3 Hw) by (apply wf_mk; unfold days_in_month; eval_closed; lia).
+  rewrite (days_le_date c 9999 12 26 Hw) by (apply wf_mk; unfold days_in_month; eval_closed; lia).
+  pose proof (dim_bounds (c_year c) (c_month c)). unfold week_edge. lia.
+Qed.
+
+Lemma prev_representable_iff k c : valid c -> (prev_representable k c <-> ~ previous_edge k c).
+Proof.
+  intros Hv. pose proof (valid_fields _ Hv) as (Hy & Hm & Hd). pose proof (valid_days _ Hv) as [Hw Hz].
+  destruct k; cbn [prev_representable previous_edge].
+  - assert (R : D0 + 7 <= monday_of c <-> D0 + 9 <= days_of c).
+    { unfold monday_of, weekday, D0. Z.div_mod_to_equations. lia. }
+    rewrite R. change (D0 + 9) with (days_from_civil 0 1 10).
+    rewrite (days_ge_date c 0 1 10 Hw) by (apply wf_mk; unfold days_in_month; eval_closed; lia). lia.
+  - tauto.
+  - pose proof (quarter_spec c Hm). lia.
+  - lia.
+Qed.
+
+Lemma classic_repr k c : valid c -> representable k c \/ ~ representable k c.
+Proof. intros _. destruct k; cbn [representable]; try (left; exact I). lia. Qed.
+
+(* ---- the final form of the tiling theorems ---- *)
+Theorem period_tiles k c : valid c -> ~ period_edge k c ->
+  exists s u, period_of k c = Ok (s, u) /\ valid s /\ valid u /\ days_of s <= days_of c <= days_of u
+    /\ first_last_ok k s u
+    /\ (forall c', valid c' -> days_of s <= days_of c' <= days_of u -> period_of k c' = Ok (s, u)).
+Proof.
+  intros Hv He. apply representable_iff in He; [|exact Hv].
+  exists (pstart k c), (pend k c).
+  destruct (pstart_pend_bounds k c Hv He) as (V1 & V2 & B).
+  split; [apply period_spec; assumption|]. split; [exact V1|]. split; [exact V2|]. split; [exact B|].
+  split; [apply pstart_pend_first_last; exact Hv|].
+  intros c' Hv' Hin. destruct (period_same k c c' Hv He Hv' Hin) as (E1 & E2 & R).
+  rewrite period_spec by assumption. rewrite E1, E2. reflexivity.
+Qed.
+
+Theorem period_edge_crash k c : valid c -> period_edge k c -> period_of k c = Crash CUnrepresentableDate.
+Proof.
+  intros Hv He. apply period_crash; [exact Hv|]. intro R. apply representable_iff in R; [|exact Hv]. tauto.
+Qed.
+
+Theorem previous_period_adjacent k c : valid c -> ~ previous_edge k c ->
+  exists s' u', previous_period k c = Ok (s', u') /\ valid s' /\ valid u' /\ days_of s' <= days_of u' < days_of c
+    /\ first_last_ok k s' u'
+    /\ period_of k u' = Ok (s', u')
+    /\ (forall s u, period_of k c = Ok (s, u) -> next_day u' = s /\ days_of u' + 1 = days_of s).
+Proof.
+  intros Hv He. apply prev_representable_iff in He; [|exact Hv].
+  destruct (previous_spec k c Hv He) as (p & Ep & Vp & Rp & Adj).
+  exists (pstart k p), (pend k p).
+  destruct (pstart_pend_bounds k p Vp Rp) as (V1 & V2 & B).
+  unfold previous_period. rewrite Ep. cbn [bind].
+  split; [apply period_spec; assumption|]. split; [exact V1|]. split; [exact V2|].
+  assert (Hlt : days_of (pend k p) < days_of c).
+  { destruct (classic_repr k c Hv) as [R|R].
+    - destruct (pstart_pend_bounds k c Hv R) as (_ & _ & Bc). lia.
+    - (* only the last week: its Monday is still a date *)
+      destruct k; cbn [representable] in R; try tauto. cbn [pstart] in Adj.
+      destruct (days_cfd (monday_of c)) as [_ E]. rewrite E in Adj. pose proof (monday_of_spec c). lia. }
+  split; [lia|].
+  split; [apply pstart_pend_first_last; exact Vp|].
+  split.
+  - destruct (period_same k p (pend k p) Vp Rp V2 ltac:(lia)) as (E1 & E2 & R).
+    rewrite period_spec by assumption. rewrite E1, E2. reflexivity.
+  - intros s u Hp.
+    assert (R : representable k c).
+    { destruct (classic_repr k c Hv) as [R|R]; [exact R|]. rewrite period_crash in Hp by assumption. discriminate. }
+    rewrite period_spec in Hp by assumption. injection Hp as <- <-.
+    destruct (pstart_pend_bounds k c Hv R) as (Vs & _ & _).
+    apply valid_days in V2 as [W2 _]. apply valid_days in Vs as [Ws _].
+    split; [|exact Adj]. apply days_inj; [apply wf_next; exact W2 | exact Ws |]. rewrite days_next by exact W2. exact Adj.
+Qed.
+
+
+(* ---- Previous() where there is no previous period inside the calendar: a panic, by enumeration of year 0000 ---- *)
+Definition previous_edge_b (k : kind) (c : cdate) : bool :=
+  match k with
+  | KWeek => (c_year c =? 0) && (c_month c =? 1) && (c_day c <=? 9)
+  | KMonth => (c_year c =? 0) && (c_month c =? 1)
+  | KQuarter => (c_year c =? 0) && (c_month c <=? 3)
+  | KYear => c_year c =? 0
+  end.
+
+Definition prev_edge_check1 (k : kind) (c : cdate) : bool :=
+  negb (previous_edge_b k c) || is_crash (previous_period k c).
+
+Definition prev_edge_check (y m d : Z) : bool :=
+  negb (valid_ymd y m d) ||
+  (prev_edge_check1 KWeek (mk y m d) && prev_edge_check1 KMonth (mk y m d)
+   && prev_edge_check1 KQuarter (mk y m d) && prev_edge_check1 KYear (mk y m d)).
+
+Lemma prev_edge_sweep : sweep3 prev_edge_check 1 12 31 0 1 1 = true.
+Proof. vm_cast_no_check (eq_refl true). Qed.
+
+Theorem previous_edge_crash k c : valid c -> previous_edge k c -> is_crash (previous_period k c) = true.
+Proof.
+  intros Hv He. pose proof (valid_fields _ Hv) as (Hy & Hm & Hd). pose proof (dim_bounds (c_year c) (c_month c)).
+  assert (Y0 : c_year c = 0) by (destruct k; cbn [previous_edge] in He; tauto).
+  assert (C : prev_edge_check (c_year c) (c_month c) (c_day c) = true).
+  { apply (sweep3_sound prev_edge_check 1 12 31 0 1 1 prev_edge_sweep); change (Z.of_nat 1) with 1; change (Z.of_nat 12) with 12; change (Z.of_nat 31) with 31; lia. }
+  unfold prev_edge_check in C. rewrite <- eta_cdate in C.
+  unfold valid, valid_cdate in Hv. rewrite Hv in C. cbn [negb orb] in C.
+  assert (C1 : prev_edge_check1 k c = true) by (destruct k; lia).
+  unfold prev_edge_check1 in C1.
+  assert (B : previous_edge_b k c = true) by (destruct k; cbn [previous_edge previous_edge_b] in *; lia).
+  rewrite B in C1. exact C1.
+Qed.
+
+(* ================= Hash ================= *)
+
+Lemma land_low_high a b n : 0 <= n -> 0 <= a < 2 ^ n -> Z.land a (Z.shiftl b n) = 0.
+Proof.
+  intros Hn Ha. apply Z.bits_inj'. intros i Hi. rewrite Z.land_spec, Z.bits_0.
+  destruct (Z_lt_le_dec i n) as [L|G].
+  - rewrite (Z.shiftl_spec_low b n i L). apply andb_false_r.
+  - destruct (Z.eq_dec a 0) as [->|Na]; [rewrite Z.bits_0; reflexivity|].
+    rewrite (Z.bits_above_log2 a i); [reflexivity | lia |].
+    apply Z.lt_le_trans with n; [|exact G]. apply Z.log2_lt_pow2; lia.
+Qed.
+
+Lemma lor_low_high a b n : 0 <= n -> 0 <= a < 2 ^ n -> Z.lor a (Z.shiftl b n) = a + b * 2 ^ n.
+Proof.
+  intros Hn Ha. rewrite <- Z.shiftl_mul_pow2 by exact Hn.
+  rewrite <- Z.lxor_lor by (apply land_low_high; assumption).
+  symmetry. apply Z.add_nocarry_lxor. apply land_low_high; assumption.
+Qed.
+
+Lemma lor_low_mul a b n : 0 <= n -> 0 <= a < 2 ^ n -> Z.lor a (b * 2 ^ n) = a + b * 2 ^ n.
+Proof. intros Hn Ha. rewrite <- (lor_low_high a b n Hn Ha). rewrite Z.shiftl_mul_pow2 by exact Hn. reflexivity. Qed.
+
+(* one populate step on a field value that fits *)
+Lemma populate_small b v maxv : 0 <= bm_consumed b -> bm_consumed b + max_bits maxv <= 32 ->
+  0 <= bm_value b < 2 ^ bm_consumed b -> 0 <= v -> v * 2 ^ bm_consumed b < two32 ->
+  bm_populate b v maxv = Ok {| bm_value := bm_value b + v * 2 ^ bm_consumed b; bm_consumed := bm_consumed b + max_bits maxv |}.
+Proof.
+  intros Hc Hm Hv Hv0 Hs. unfold bm_populate.
+  destruct (32 <? bm_consumed b + max_bits maxv) eqn:E; [lia|].
+  f_equal. f_equal.
+  assert (P : 0 < 2 ^ bm_consumed b) by (apply Z.pow_pos_nonneg; lia).
+  assert (Hv32 : v < two32) by nia.
+  unfold to_uint32. rewrite (Z.mod_small v two32) by lia.
+  rewrite Z.shiftl_mul_pow2 by exact Hc. rewrite Z.mod_small by nia.
+  apply lor_low_mul; assumption.
+Qed.
+
+Ltac hash_side :=
+  cbn [bm_new bm_value bm_consumed];
+  repeat (match goal with |- context[max_bits ?n] =>
+            let v := eval vm_compute in (max_bits n) in change (max_bits n) with v end);
+  repeat (match goal with |- context[2 ^ ?n] =>
+            let v := eval vm_compute in (2 ^ n) in
+            match v with Zpos _ => idtac end; change (2 ^ n) with v end);
+  change two32 with 4294967296; lia.
+
+Lemma max_bits_vals : max_bits 31 = 6 /\ max_bits 12 = 5 /\ max_bits 10000 = 15 /\ max_bits 53 = 7 /\ max_bits 4 = 3.
+Proof. repeat split; reflexivity. Qed.
+
+(* the hashes as numbers *)
+Lemma day_hash_val c : valid c -> day_hash c = Ok (c_day c + 64 * c_month c + 2048 * c_year c).
+Proof.
+  intros Hv. pose proof (valid_fields _ Hv) as (Hy & Hm & Hd). pose proof (dim_bounds (c_year c) (c_month c)).
+  unfold day_hash.
+  rewrite (populate_small bm_new (c_day c) 31) by hash_side. cbn [bm_new bm_value bm_consumed bind].
+  change (0 + max_bits 31) with 6. change (2 ^ 0) with 1.
+  rewrite populate_small; cbn [bm_value bm_consumed]; try hash_side.
+  cbn [bind]. change (6 + max_bits 12) with 11. change (2 ^ 6) with 64.
+  rewrite populate_small; cbn [bm_value bm_consumed]; try hash_side.
+  cbn [bm_result bind bm_value]. change (2 ^ 11) with 2048. f_equal. lia.
+Qed.
+
+Lemma month_hash_val c : valid c -> month_hash c = Ok (c_month c + 32 * c_year c).
+Proof.
+  intros Hv. pose proof (valid_fields _ Hv) as (Hy & Hm & Hd).
+  unfold month_hash.
+  rewrite (populate_small bm_new (c_month c) 12) by hash_side. cbn [bm_new bm_value bm_consumed bind].
+  change (0 + max_bits 12) with 5. change (2 ^ 0) with 1.
+  rewrite populate_small; cbn [bm_value bm_consumed]; try hash_side.
+  cbn [bm_result bind bm_value]. change (2 ^ 5) with 32. f_equal. lia.
+Qed.
+
+Lemma quarter_hash_val c : valid c -> quarter_hash c = Ok (quarter c + 8 * c_year c).
+Proof.
+  intros Hv. pose proof (valid_fields _ Hv) as (Hy & Hm & Hd). pose proof (quarter_spec c Hm) as [Hq _].
+  unfold quarter_hash.
+  rewrite (populate_small bm_new (quarter c) 4) by hash_side. cbn [bm_new bm_value bm_consumed bind].
+  change (0 + max_bits 4) with 3. change (2 ^ 0) with 1.
+  rewrite populate_small; cbn [bm_value bm_consumed]; try hash_side.
+  cbn [bm_result bind bm_value]. change (2 ^ 3) with 8. f_equal. lia.
+Qed.
+
+Lemma year_hash_val c : valid c -> year_hash c = Ok (c_year c).
+Proof.
+  intros Hv. pose proof (valid_fields _ Hv) as (Hy & Hm & Hd).
+  unfold year_hash.
+  rewrite (populate_small bm_new (c_year c) 10000) by hash_side. cbn [bm_new bm_value bm_consumed bind bm_result].
+  change (2 ^ 0) with 1. f_equal. lia.
+Qed.
+
+(* the ISO year of 0000-01-01 and 0000-01-02 is -1: uint32(-1) << 7 wraps to 2^32 - 128 *)
+Definition week_year_code (y : Z) : Z := if y <? 0 then 33554431 else y.
+
+Lemma week_hash_val c : valid c ->
+  week_hash c = Ok (snd (iso_week c) + 128 * week_year_code (fst (iso_week c))).
+Proof.
+  intros Hv. pose proof (valid_fields _ Hv) as (Hy & Hm & Hd). pose proof (valid_days _ Hv) as [Hw _].
+  pose proof (iso_year_near c Hw) as Yn. pose proof (iso_week_range c Hw) as Wr.
+  pose proof (week1_step (fst (iso_week c))) as [_ Ww].
+  unfold week_hash. destruct (iso_week c) as [y w]. cbn [fst snd] in *.
+  rewrite (populate_small bm_new w 53) by hash_side. cbn [bm_new bm_value bm_consumed bind].
+  change (0 + max_bits 53) with 7. change (2 ^ 0) with 1. unfold week_year_code.
+  destruct (y <? 0) eqn:E.
+  - assert (y = -1) by lia. subst y. unfold bm_populate. cbn [bm_value bm_consumed].
+    change (32 <? 7 + max_bits 10000) with false. cbv iota. cbn [bm_result bind bm_value].
+    change (Z.shiftl (to_uint32 (-1)) 7 mod two32) with (33554431 * 2 ^ 7).
+    rewrite lor_low_mul by (change (2 ^ 7) with 128; lia). change (2 ^ 7) with 128. f_equal. lia.
+  - rewrite populate_small; cbn [bm_value bm_consumed]; try hash_side.
+    cbn [bm_result bind bm_value]. change (2 ^ 7) with 128. f_equal. lia.
+Qed.
+
+(* two dates fall into the same report bucket exactly when they lie in the same period *)
+Definition same_period (k : kind) (a b : cdate) : Prop :=
+  match k with
+  | KWeek => monday_of a = monday_of b
+  | KMonth => c_year a = c_year b /\ c_month a = c_month b
+  | KQuarter => c_year a = c_year b /\ quarter a = quarter b
+  | KYear => c_year a = c_year b
+  end.
+
+Theorem hash_eq_iff_same_period k a b : valid a -> valid b ->
+  exists ha hb, hash_of k a = Ok ha /\ hash_of k b = Ok hb /\ (ha = hb <-> same_period k a b).
+Proof.
+  intros Va Vb. pose proof (valid_fields _ Va) as (Hya & Hma & Hda). pose proof (valid_fields _ Vb) as (Hyb & Hmb & Hdb).
+  destruct k; cbn [hash_of same_period].
+  - rewrite (week_hash_val a Va), (week_hash_val b Vb). eexists; eexists; split; [reflexivity|]. split; [reflexivity|].
+    pose proof (valid_days _ Va) as [Wa _]. pose proof (valid_days _ Vb) as [Wb _].
+    rewrite <- (iso_week_iff a b Wa Wb).
+    pose proof (iso_year_near a Wa). pose proof (iso_year_near b Wb).
+    pose proof (iso_week_range a Wa). pose proof (iso_week_range b Wb).
+    pose proof (week1_step (fst (iso_week a))) as [_ ?]. pose proof (week1_step (fst (iso_week b))) as [_ ?].
+    destruct (iso_week a) as [ya wa], (iso_week b) as [yb wb]. cbn [fst snd] in *. unfold week_year_code.
+    split.
+    + intros HH. destruct (ya <? 0) eqn:Ea; destruct (yb <? 0) eqn:Eb; f_equal; lia.
+    + intros [= -> ->]. reflexivity.
+  - rewrite (month_hash_val a Va), (month_hash_val b Vb). eexists; eexists; split; [reflexivity|]. split; [reflexivity|]. lia.
+  - rewrite (quarter_hash_val a Va), (quarter_hash_val b Vb). eexists; eexists; split; [reflexivity|]. split; [reflexivity|].
+    pose proof (quarter_spec a Hma). pose proof (quarter_spec b Hmb). lia.
+  - rewrite (year_hash_val a Va), (year_hash_val b Vb). eexists; eexists; split; [reflexivity|]. split; [reflexivity|]. lia.
+Qed.
+
+Theorem day_hash_eq_iff a b : valid a -> valid b ->
+  exists ha hb, day_hash a = Ok ha /\ day_hash b = Ok hb /\ (ha = hb <-> a = b).
+Proof.
+  intros Va Vb. pose proof (valid_fields _ Va) as (Hya & Hma & Hda). pose proof (valid_fields _ Vb) as (Hyb & Hmb & Hdb).
+  pose proof (dim_bounds (c_year a) (c_month a)). pose proof (dim_bounds (c_year b) (c_month b)).
+  rewrite (day_hash_val a Va), (day_hash_val b Vb). eexists; eexists; split; [reflexivity|]. split; [reflexivity|].
+  split.
+  - intros E. rewrite (eta_cdate a), (eta_cdate b). unfold mk. f_equal; lia.
+  - intros ->. reflexivity.
+Qed.
+
+Lemma ok_pair_inj {A B : Type} (a a' : A) (b b' : B) : @Ok (A * B) (a, b) = Ok (a', b') -> a = a' /\ b = b'.
+Proof. intros H. inversion H. auto. Qed.
+
+Lemma mk_inj y m d y' m' d' : mk y m d = mk y' m' d' -> y = y' /\ m = m' /\ d = d'.
+Proof. unfold mk. intros H. inversion H. auto. Qed.
+
+(* same bucket = same period in the sense of Period(): for dates whose period is representable *)
+Theorem same_period_iff_period_eq k a b : valid a -> valid b -> ~ period_edge k a -> ~ period_edge k b ->
+  (same_period k a b <-> period_of k a = period_of k b).
+Proof.
+  intros Va Vb Ea Eb. apply representable_iff in Ea; [|exact Va]. apply representable_iff in Eb; [|exact Vb].
+  rewrite !period_spec by assumption.
+  pose proof (valid_fields _ Va) as (Hya & Hma & Hda). pose proof (valid_fields _ Vb) as (Hyb & Hmb & Hdb).
+  destruct k; cbn [same_period pstart pend].
+  - split.
+    + intros ->. reflexivity.
+    + intros E. apply ok_pair_inj in E as [E _].
+      destruct (days_cfd (monday_of a)) as [_ Ha]. destruct (days_cfd (monday_of b)) as [_ Hb].
+      rewrite <- Ha, <- Hb, E. reflexivity.
+  - split.
+    + intros [-> ->]. reflexivity.
+    + intros E. apply ok_pair_inj in E as [E _]. apply mk_inj in E. tauto.
+  - split.
+    + intros [-> ->]. reflexivity.
+    + intros E. apply ok_pair_inj in E as [E _]. unfold q_first in E. apply mk_inj in E.
+      pose proof (quarter_spec a Hma). pose proof (quarter_spec b Hmb). lia.
+  - split.
+    + intros ->. reflexivity.
+    + intros E. apply ok_pair_inj in E as [E _]. apply mk_inj in E. tauto.
+Qed.
